@@ -495,15 +495,16 @@ class Envelope:
                 operators, *states, destructive=destructive
             )
 
+        C = Config()
+
+        # Combining also brings both states to the same expansion level
+        if len(states) == 2 and self.state is None:
+            self.combine()
+
         # Expand to matrix state if not alreay in it
         assert isinstance(self.expansion_level, ExpansionLevel)
         while self.expansion_level < ExpansionLevel.Matrix:
             self.expand()
-
-        C = Config()
-
-        if len(states) == 2 and self.state is None:
-            self.combine()
 
         # The operators are tensored in the order of the given states
         self.reorder(*states)
@@ -527,7 +528,7 @@ class Envelope:
                 assert op.shape == (self.dimensions, self.dimensions)
 
             # Produce einsum str
-            einsum = "eacf,abcd,gbhd->egfh"
+            einsum = "eafc,abcd,gbhd->egfh"
             # Compute probabilities
             probabilities = []
             for op in operators:
